@@ -113,6 +113,22 @@ impl<'a> Checker<'a> {
             self.fail(d, "block-above-height", "a block above the current height is served".into(), json!({"block": above.short()}));
             return false;
         }
+        // one hash handed out for transactions of two different senders (signing-hash era)
+        {
+            let mut by_hash: BTreeMap<String, BTreeSet<String>> = BTreeMap::new();
+            for rs in d.chain_resp.iter() {
+                for r in rs {
+                    for rc in hist::receipts_in(r) {
+                        by_hash.entry(s(&rc, "transactionHash").to_string()).or_default().insert(s(&rc, "from").to_string());
+                    }
+                }
+            }
+            if let Some((hsh, froms)) = by_hash.iter().find(|(_, f)| f.len() >= 2) {
+                let (hsh, froms) = (hsh.clone(), froms.clone());
+                self.fail(d, "tx-hash-collision-between-signers", format!("transactions of different senders {:?} got the same transaction hash {} (network {}: the hash is the signing hash, which does not cover the signature); the later one replaces the earlier one in every by-hash lookup", froms, hsh, self.net), json!({"hash": hsh, "senders": froms}));
+                return false;
+            }
+        }
         let mut prev_hash: Option<String> = None;
         for n in 0..=(h.max(-1)) {
             if n < 0 {
@@ -414,6 +430,26 @@ fn directed_invalid_repeat(ctx: &WorkerCtx, rep: &mut WorkerReport, net: &str) {
     drop_driver(d);
 }
 
+/// Mainnet below the RLP-hash height: the transaction hash is the signing hash, which does not cover
+/// the signature, so two signers sending the same (nonce, to, data) collide.
+fn directed_signing_hash_collision(ctx: &WorkerCtx, rep: &mut WorkerReport, net: &str) {
+    let mut d = new_driver("C06");
+    d.exec(Op::Init { hash: hist::ZERO_HASH.into(), ts: 5, height: 0 });
+    let chain = rpc::chain_id_for(net);
+    let data = crate::asm::tool_init();
+    for (i, tag) in [71u8, 72u8].iter().enumerate() {
+        let s = hist::Signer::new(*tag);
+        let raw = s.sign(Some(chain), 0, None, &data);
+        let hash = format!("0x{:064x}", 0xc011u64 + i as u64);
+        d.exec(Op::Transact { raw: format!("0x{}", raw), enc: Enc::Hex, ctx: Ctx { ts: 6 + i as u64, hash: hash.clone(), idx: 0 }, iid: format!("coll{}i0", i), len: 100_000, txid: hist::ZERO_HASH.into() });
+        let n = d.ntx;
+        d.exec(Op::Finalise { ts: 6 + i as u64, hash, count: n });
+    }
+    let mut c = Checker { rep, seed: ctx.seed, case_seed: 1, net, failed: false };
+    c.check_all(&mut d);
+    drop_driver(d);
+}
+
 fn one_history(ctx: &WorkerCtx, rep: &mut WorkerReport, case_seed: u64, blocks: u64) {
     let (net, _) = net_for_shard(ctx.shard);
     let mut rng = crate::rng::Rng::new(case_seed);
@@ -424,6 +460,19 @@ fn one_history(ctx: &WorkerCtx, rep: &mut WorkerReport, case_seed: u64, blocks: 
     let mut d = new_driver("C06");
     let mut reorged = false;
     for b in 0..blocks {
+        // sometimes a half-built block is discarded (after a commit) and an empty block follows
+        if d.height >= 1 && rng.chance(1, 6) {
+            d.exec(Op::Commit);
+            let blk = w.block_ctx(&d);
+            for _ in 0..rng.range(1, 3) {
+                w.gen_tx(&mut d, &blk);
+            }
+            d.exec(Op::Clear);
+            if rng.chance(1, 2) {
+                w.ts += 3;
+                d.exec(Op::Mine { n: 1, ts: w.ts });
+            }
+        }
         w.gen_block(&mut d);
         if rng.chance(1, 4) {
             d.exec(Op::Commit);
@@ -452,6 +501,9 @@ pub fn worker(ctx: &WorkerCtx) -> WorkerReport {
     let mut rep = WorkerReport::default();
     if ctx.shard == 0 {
         directed_invalid_repeat(ctx, &mut rep, net);
+    }
+    if ctx.shard == 2 {
+        directed_signing_hash_collision(ctx, &mut rep, net);
     }
     let mut rng = ctx.rng();
     let (cases, blocks) = if ctx.thorough() { (8, 16) } else { (1, 12) };
